@@ -37,6 +37,7 @@ func main() {
 	tier := flag.String("tier", "quick", "quick|thorough")
 	dump := flag.String("dump", "", "dump descriptors of a function (stable name)")
 	list := flag.Bool("list", false, "list function names")
+	edges := flag.Bool("edges", false, "with -list: print caller -> callee for every call with a resolved name")
 	replay := flag.String("replay", "", "replay file written by an earlier run")
 	evdir := flag.String("evidence", "", "evidence directory (default <verif>/evidence)")
 	vdir := flag.String("verif", "", "verif directory (default: parent of the binary's dir, or /verif)")
@@ -90,7 +91,13 @@ func main() {
 		}
 		if *list {
 			for _, n := range p.FuncNames() {
-				fmt.Println(n)
+				if !*edges {
+					fmt.Println(n)
+					continue
+				}
+				for _, s := range p.CallsIn(p.Fn(n), func(string) bool { return true }) {
+					fmt.Printf("%s -> %s\n", n, s.Note)
+				}
 			}
 			return
 		}
